@@ -8,7 +8,7 @@ Exit codes: 0 = every query held (or only listed known findings failed); 1 = a r
 (VIOLATION line printed); 2 = check error / inconclusive (timeout, unwinding bound, unconfirmed
 counterexample, translator mismatch) - never reported as success and never as a violation.
 """
-import os, sys, re, json, time, subprocess, shutil, hashlib, importlib.util, concurrent.futures as cf
+import copy, os, sys, re, json, time, subprocess, shutil, hashlib, importlib.util, concurrent.futures as cf
 
 VERIF = os.path.dirname(os.path.dirname(os.path.abspath(__file__)))
 REPO = os.environ.get('VERIF_REPO', '/repo')
@@ -57,13 +57,14 @@ def build_c(q, bdir, log):
     rc, out, t1 = sh(['opt-14', '-S', '-passes=loop-simplify', ll, '-o', ll + '.ls'], timeout=600)
     if rc: raise CheckError('opt loop-simplify failed: ' + out[-2000:])
     os.replace(ll + '.ls', ll)
-    rc, out, t2 = sh(['python3', os.path.join(ENG, 'irpass.py'), ll, pll, '-j' + os.path.join(bdir, 'irp.json')] + ['-c' + c for c in q.cuts] + ['-f' + c for c in q.forbid] + ['-z' + c for c in q.zero] + ['-r' + c for c in q.hooks], timeout=600)
+    rc, out, t2 = sh(['python3', os.path.join(ENG, 'irpass.py'), ll, pll, '-j' + os.path.join(bdir, 'irp.json')] + ['-c' + c for c in q.cuts] + ['-f' + c for c in q.forbid] + ['-z' + c for c in q.zero] + ['-r' + c.lstrip('?') for c in q.hooks], timeout=600)
     if rc: raise CheckError('irpass failed: ' + out[-4000:])
     rc, out, t3 = sh(['python3', os.path.join(ENG, 'll2c.py'), pll, gen, q.entry, '-j' + os.path.join(bdir, 'l2c.json')], timeout=900,
                      env=dict(os.environ, VLL_BYTELOOPS='1' if q.byteloops else '0'))
     if rc: raise CheckError('ll2c failed (unsupported construct => no verdict):\n' + out[-4000:])
     irp = json.load(open(os.path.join(bdir, 'irp.json'))); l2c = json.load(open(os.path.join(bdir, 'l2c.json')))
     for hk in q.hooks:
+        if hk.startswith('?'): continue          # optional hook: the function need not exist in every version of the code
         if not any(re.search(hk.rsplit('=', 1)[0], n) for n in irp.get('hooks', [])): raise CheckError('hook pattern %r matched no function (inlined away?)' % hk)
     for rx in list(q.zero):
         if not any(re.search(rx, n) for n in irp.get('zero_stubs', [])) and not os.environ.get('VERIF_LAX_STUBS'): raise CheckError('stub pattern %r matched no function (inlined away?)' % rx)
@@ -251,6 +252,13 @@ def run_query(q, pid, tier, seed, bdir_root, log):
         res['failed_properties'] = descr[:10]
         if any(any(e in d for e in ERR_DESCR) for d in descr) and not any(any(v_ in d for v_ in VIOL_DESCR) for d in descr):
             res['status'] = 'error'; res['error'] = 'bound too small / shim capacity: %s' % descr[:3]; return res
+        if '--slice-formula' in q.cbmc:
+            # a sliced formula has no assignments to vnd_last (they do not influence the property): get the full trace of
+            # a counterexample from an unsliced run (finding a counterexample is much cheaper than the proof)
+            q2 = copy.copy(q); q2.cbmc = [x for x in q.cbmc if x != '--slice-formula']
+            m2 = run_cbmc(q2, b, False, tmo)
+            open(os.path.join(bdir, 'cbmc_unsliced.log'), 'w').write(m2['cmd'] + '\n' + m2['out'])
+            if m2['verdict'] == 'FAILED': m = m2; descr = [d for _, d in m['failed']]
         inputs = trace_inputs(m['out'], m['failed'])
         rdir = os.path.join(VERIF, 'evidence', 'replay', '%s-%s' % (pid, q.name)) if REPO == '/repo' else os.path.join(bdir, 'replay')
         memfail = not any(any(v_ in d for v_ in VIOL_DESCR) for d in descr)
